@@ -359,3 +359,80 @@ func VerifH_C02_Unadorned() {
 	}
 	rt.Cover(kind == 2, "adorned-conjunction")
 }
+
+// VerifH_C08_DocIDReader: the real IndexSnapshot.DocIDReaderAll / DocIDReaderOnly and
+// IndexSnapshotDocIDReader.Next/Advance (what match-all and doc-id searchers iterate) over a snapshot
+// of 2-3 stub segments with symbolic ids and deleted documents: every program of Next / forward
+// Advance calls yields exactly the live documents (All) or the live documents carrying one of the
+// requested ids (Only), ascending, Advance landing on the first one at or after its target - also
+// when the target's segment has nothing left and the next match lies in a later segment.
+func VerifH_C08_DocIDReader() {
+	s := verifNewScorch()
+	nIDs := 2
+	nsegs := rt.Param("segs", 2)
+	root, segs := verifSymRoot(s, nsegs, rt.Param("max_docs", 2), nIDs)
+	only := rt.Choice("only", 2) == 1
+	var ids []string
+	wantA, wantB := false, false
+	if only {
+		wantA = rt.Choice("want_a", 2) == 1
+		wantB = rt.Choice("want_b", 2) == 1
+		if wantA {
+			ids = append(ids, "a")
+		}
+		if wantB {
+			ids = append(ids, "b")
+		}
+		ids = append(ids, "zz") // an id no document has
+	}
+	var want []uint64
+	var sizes []int
+	for i, ss := range root.segment {
+		st := segs[i]
+		del := rt.BitmapBits(ss.deleted)
+		var bits uint64
+		for k := 0; k < st.n; k++ {
+			sel := rt.Or(!only, rt.And(wantA, st.idOf[k] == 'a'), rt.And(wantB, st.idOf[k] == 'b'))
+			bits |= rt.IteU64(rt.And(sel, (del>>uint(k))&1 == 0), uint64(1)<<uint(k), 0)
+		}
+		want = append(want, bits)
+		sizes = append(sizes, st.n)
+	}
+	var r index.DocIDReader
+	var err error
+	if only {
+		r, err = root.DocIDReaderOnly(ids)
+	} else {
+		r, err = root.DocIDReaderAll()
+	}
+	rt.Assert(err == nil, "doc id reader opens")
+	rt.Cover(rt.And(only, nsegs >= 2, wantA, !wantB), "only-some-ids")
+	var total uint64
+	for _, n := range sizes {
+		total += uint64(n)
+	}
+	lb := uint64(0)
+	for c := 0; c < rt.Param("calls", 3); c++ {
+		var got index.IndexInternalID
+		target := lb
+		if rt.Choice("op", 2) == 0 {
+			got, err = r.Next()
+		} else {
+			t := uint64(rt.U8("target"))
+			rt.Assume(rt.And(t >= lb, t < total))
+			target = t
+			got, err = r.Advance(index.NewIndexInternalID(nil, t))
+			rt.Cover(t > lb && c > 0, "advance-skips-ahead")
+		}
+		rt.Assert(err == nil, "doc id reader: no error")
+		exp := verifFirstAtOrAfter(want, sizes, target)
+		if got == nil {
+			rt.Assert(exp == total, "doc id reader: it ends only when no document is left at or after the bound")
+			return
+		}
+		id := got.Value()
+		rt.Assert(id == exp, "doc id reader: the result is the first document at or after the bound")
+		rt.Assume(id == exp)
+		lb = id + 1
+	}
+}
